@@ -555,7 +555,7 @@ pub fn chen_card_half_points(rank: u8) -> i32 {
         11 => 16,
         10 => 14,
         9 => 12,
-        r => (r as i32 + 2), // pip value / 2, in half points = pip value
+        r => r as i32 + 2, // pip value / 2, in half points = pip value
     }
 }
 
